@@ -211,8 +211,10 @@ def _damage(cf, kind):
 DAMAGES = ["delete", "empty", "inheader", "nonumber", "midnumber", "afterheader", "multibyte", "oneshort", "twothirds"]
 
 
-def program(style, loc, result, ops):
-    src = (PRELUDE % loc).split("\n")
+def program(style, loc, result, ops, pad=0):
+    """`pad` lines (and, when odd, another function) are inserted ABOVE everything: the same definitions at other line numbers."""
+    src = [f"# line {n} inserted above" for n in range(pad)] + (["def _inserted_above(x):", "    return x", ""] if pad % 2 else [])
+    src += (PRELUDE % loc).split("\n")
     for op in ops:
         o = op.get("o")
         w = op.get("w")
@@ -277,7 +279,8 @@ def run_case(case, workdir):
     env.pop("PYTHONPATH", None)
     for si, ops in enumerate(sessions_of(case)):
         with open(path, "w", encoding="utf-8") as f:
-            f.write(program(style, loc, result, ops))
+            pads = case.get("pads") or [0]
+            f.write(program(style, loc, result, ops, pads[min(si, len(pads) - 1)]))
         shutil.rmtree(os.path.join(workdir, "__pycache__"), ignore_errors=True)
         if os.path.exists(result):
             os.remove(result)
@@ -451,10 +454,11 @@ def gen_case(rng, idx, thorough, label):
     style = rng.choice(["module", "module", "nested", "main", "main", "lambda"])
     pool = list(rng.choice(LGROUPS if style == "lambda" else GROUPS))
     shape = rng.random()
+    pads = [rng.choice([0, 1, 2, 5]) for _ in range(4)]  # per session: lines inserted above the definitions
     if shape < 0.25:
-        return dict(label=f"{label}{idx}", style=style, ops=fault_history(rng, pool))
+        return dict(label=f"{label}{idx}", style=style, ops=fault_history(rng, pool), pads=pads)
     if shape < 0.45 and style != "lambda":
-        return dict(label=f"{label}{idx}", style=style, ops=swap_history(rng, [v for v in pool if v not in NO_SWAP] or [1, 2]))
+        return dict(label=f"{label}{idx}", style=style, ops=swap_history(rng, [v for v in pool if v not in NO_SWAP] or [1, 2]), pads=pads)
     ops, live, wraps = [], [], []
     ver = {}
     nobj, nw = 0, 100
@@ -496,7 +500,7 @@ def gen_case(rng, idx, thorough, label):
             sessions += 1
     while ops and ops[-1]["op"] in ("fresh", "def", "wrap"):
         ops.pop()
-    return dict(label=f"{label}{idx}", style=style, ops=ops)
+    return dict(label=f"{label}{idx}", style=style, ops=ops, pads=pads)
 
 
 def fault_history(rng, pool):
@@ -556,7 +560,7 @@ def corpus_cases():
         out.append(dict(label="corpus-f10-" + style, style=style, ops=[D(1, a), D(2, b), C(1, 1), C(2, 1), C(1, 1), C(2, 1), C(1, 1)]))
         out.append(dict(label="corpus-f10-check-" + style, style=style, ops=[D(1, a), D(2, b), C(1, 1), K(2, 1), C(2, 1), C(1, 1), C(2, 1)]))
         # edited between sessions, and back; unchanged code keeps its cache across sessions
-        out.append(dict(label="corpus-sessions-" + style, style=style,
+        out.append(dict(label="corpus-sessions-" + style, style=style, pads=[0, 4, 1, 6],
                         ops=[D(1, a), C(1, 0), C(1, 1), F, D(2, a), C(2, 0), C(2, 2), F, D(3, b), C(3, 0), F, D(4, a), C(4, 0), C(4, 0)]))
     for style in ("module", "nested", "main"):
         # F38: swap to another version's code object and back, one wrapper / two wrappers
